@@ -410,6 +410,34 @@ def float_zero_pivot(d, e, w):
     return bool(dw[n - 1] == 0) or not np.isfinite(dw).all()
 
 
+class CallTimeout(Exception):
+    pass
+
+
+_TIMEOUTS = {"n": 0}
+
+
+def with_timeout(seconds, fn):
+    """run fn() in the main thread with a wall-clock limit (a broken inverse iteration may never stop)"""
+    import signal
+
+    def handler(signum, frame):
+        raise CallTimeout()
+
+    if _TIMEOUTS["n"] >= 5:
+        seconds = min(seconds, 2.0)          # after repeated time-outs do not spend the budget again and again
+    old = signal.signal(signal.SIGALRM, handler)
+    signal.setitimer(signal.ITIMER_REAL, seconds)
+    try:
+        return fn()
+    except CallTimeout:
+        _TIMEOUTS["n"] += 1
+        raise
+    finally:
+        signal.setitimer(signal.ITIMER_REAL, 0)
+        signal.signal(signal.SIGALRM, old)
+
+
 def run_dpss(mod, a):
     """run dpss_windows under observation; returns a dict (JSON-able apart from arrays kept under '_')"""
     N, NW, K = a["N"], a["NW"], a["Kmax"]
@@ -419,7 +447,7 @@ def run_dpss(mod, a):
     with Recorder(mod, flip=a.get("flip", 0)) as rec:
         try:
             with np.errstate(all="ignore"):
-                v, lam = mod.dpss_windows(N, NW, K, **kw)
+                v, lam = with_timeout(20.0, lambda: mod.dpss_windows(N, NW, K, **kw))
             out = {"t": "ok", "v": np.array(v, dtype="d"), "lam": np.array(lam, dtype="d")}
         except Exception as ex:
             out = {"t": "exc", "cls": type(ex).__name__, "msg": str(ex)[:200]}
@@ -468,6 +496,9 @@ def validate_dpss(a, out, stats, dense_limit=1100):
         obs = {"exception": out.get("cls"), "msg": out.get("msg")} if out["t"] == "exc" else "non-finite tapers"
         if out.get("zero_pivot"):
             return [Fail(ZP_DPSS, "dpss_windows breaks down (exactly zero pivot in tridisolve during inverse iteration)",
+                         obs, "finite orthonormal tapers")]
+        if out["t"] == "exc" and out.get("cls") == "CallTimeout":
+            return [Fail(key + "no-termination", "dpss_windows did not return within the time limit (inverse iteration not converging)",
                          obs, "finite orthonormal tapers")]
         return [Fail(key + ("exception" if out["t"] == "exc" else "non-finite"), "dpss_windows failed", obs,
                      "finite orthonormal tapers")]
@@ -639,7 +670,7 @@ def run_lowbias(mod, a):
     else:
         try:
             with np.errstate(all="ignore"):
-                rows, ev = mod.dpss_windows(N, a["NW"], a["Kmax"])
+                rows, ev = with_timeout(20.0, lambda: mod.dpss_windows(N, a["NW"], a["Kmax"]))
             if not np.isfinite(rows).all():
                 return {"t": "skip"}
         except Exception:
@@ -720,7 +751,8 @@ def gen_dpss_configs(ctx):
                 continue
             if N > 64 and ctx.quick and rng.random() < 0.5:
                 continue
-            vcfg.append({"fam": "dpss", "N": N, "NW": nw, "Kmax": int(2 * nw)})
+            vcfg.append({"fam": "dpss", "N": N, "NW": nw,
+                         "Kmax": int(2 * nw) if rng.random() < 0.75 else rng.randint(1, int(2 * nw))})
     for _ in range(ctx.scale(120, 600)):
         N = rng.randint(16, top if rng.random() < 0.2 else 512)
         M = max(8, rng.choice([N, N // 2, N // 3, N // 4, N - 1, rng.randint(8, N)]))
@@ -814,6 +846,9 @@ def run(ctx):
     zero_pivot_witness_cases(ctx, impls, stats, vruns)
     dpss_runs = []
     for a in kcfg:
+        if _TIMEOUTS["n"] >= 5:
+            ctx.notes.append("dpss_windows timed out repeatedly; remaining K configurations skipped")
+            break
         for label, mod in impls.modules():
             out = run_dpss(mod, a)
             dpss_runs.append((a, label, out))
@@ -832,6 +867,10 @@ def run(ctx):
     kcases = [kcases[i] for i in order]
     kbad = ctx.check_cases("K", HEADER, kcases, "check", shard=ctx.scale(45, 120), case_type="case", timeout=1500)
     bad = {id(kcases[i]) for i in kbad}
+    if kbad:
+        # name the first disagreeing cases in the replay file of a broken correspondence lemma
+        ctx.broken.append({"kind": "K-case", "lemma": "first cases on which the Coq model and the implementation disagree",
+                           "detail": json.dumps([kcases[i].replay for i in sorted(kbad)[:3]], default=str)[:6000]})
     for c in lb:
         if not c.in_k:
             ctx.count_case(c)
@@ -864,6 +903,12 @@ def run(ctx):
         nval += 1
     zp = []
     for a in vcfg:
+        if len(ctx.violations) >= 300:
+            ctx.notes.append("search stopped after 300 failing inputs; remaining validation configurations not run")
+            break
+        if _TIMEOUTS["n"] >= 5:
+            ctx.notes.append("dpss_windows timed out repeatedly; remaining validation configurations skipped")
+            break
         for label, mod in impls.modules():
             out = run_dpss(mod, a)
             fs = validate_dpss(a, out, stats, dense_limit=ctx.scale(520, 1100))
